@@ -97,7 +97,7 @@ func scenariosC11(tier string) []*mcrt.Scenario {
 				Body: func(x *mcrt.X) {
 					obs := &obsT{out: &hsink.Sink{Name: "stdout", Split: split}}
 					x.Data = obs
-					src := &hsink.ChunkReader{Data: stream, Reset: true}
+					src := &hsink.ChunkReader{Data: stream, Reset: true, EOFWithData: true}
 					HandleMessages(t0, src, obs.out, &jsonconfig.Config{})
 					obs.atReturn = append([]byte{}, obs.out.Buf...)
 					mcrt.Note(uint64(len(obs.atReturn)))
